@@ -107,6 +107,26 @@ func (a *intAbs) I(t *Term) string {
 		}
 	case "ite":
 		r = a.define("s", t.id, "Int", fmt.Sprintf("(ite %s %s %s)", a.B(t.args[0]), a.I(t.args[1]), a.I(t.args[2])))
+	case "bvudiv", "bvurem", "bvsdiv", "bvsrem":
+		// division by a positive constant is exact in integer arithmetic
+		// (truncated division for the signed forms, as in SMT-LIB and Go)
+		if len(t.args) == 2 && t.args[1].IsConst() && t.args[1].val.Sign() > 0 && t.args[1].val.Cmp(new(big.Int).Lsh(bigOne, uint(w-1))) < 0 {
+			c := t.args[1].val.String()
+			switch t.op {
+			case "bvudiv":
+				r = a.define("s", t.id, "Int", fmt.Sprintf("(div %s %s)", a.I(t.args[0]), c))
+			case "bvurem":
+				r = a.define("s", t.id, "Int", fmt.Sprintf("(mod %s %s)", a.I(t.args[0]), c))
+			case "bvsdiv":
+				sx := a.signed(t.args[0])
+				r = a.define("s", t.id, "Int", fmt.Sprintf("(mod (ite (>= %s 0) (div %s %s) (- (div (- %s) %s))) %s)", sx, sx, c, sx, c, pow2(w)))
+			case "bvsrem":
+				sx := a.signed(t.args[0])
+				r = a.define("s", t.id, "Int", fmt.Sprintf("(mod (ite (>= %s 0) (mod %s %s) (- (mod (- %s) %s))) %s)", sx, sx, c, sx, c, pow2(w)))
+			}
+		} else {
+			r = a.opaqueInt(t)
+		}
 	case "zero_extend":
 		r = a.I(t.args[0])
 	default:
